@@ -289,6 +289,25 @@ class Engine:
                 for m, n in rec["mechanisms"].items():
                     count("recovery:" + m, n)
                 _trace_probes(rec["trace"], count)
+                # I4 (static conditions): a read that failed for real - the target is missing, a directory,
+                # unreadable - is reported too: some message names the file
+                if not violations and rec["status"] == "ok":
+                    sup = plan["cfg"].get("suppress_warnings") or []
+                    for t in rec["trace"]:
+                        if t["op"] != "open" or not str(t.get("outcome", "")).startswith("err:"):
+                            continue
+                        base = os.path.basename(t["rel"])
+                        if not re.fullmatch(r"[\w.-]{3,80}", base):
+                            continue  # over-long or exotic names may be escaped or shortened in messages
+                        if t["site"].startswith("inventory.py") and _suppresses_inv(plan["cfg"]):
+                            continue
+                        if fe == "sphinx" and "docutils" in sup:
+                            continue
+                        count("i4_static_checked")
+                        if not any(base in m for m in rec["msgs"]):
+                            violate("I4", f"{fe}:{t['site']}/open/{t['outcome'][4:]}:static-condition-not-reported", [],
+                                    front_end=fe, call=t, messages=rec["msgs"][:15])
+                            break
             trace = rec["trace"] if rec is not None else []
 
             # ---- fault plans
